@@ -155,7 +155,7 @@ func runCheck(prog *Program, prop, tier, verif, only string, loadSecs float64, t
 		timeout = 60 * time.Second
 		needAll = true
 	}
-	work := filepath.Join(verif, "work", prop)
+	work := filepath.Join(envOr("GOVC_WORK_DIR", filepath.Join(verif, "work")), prop)
 	os.RemoveAll(work)
 	os.MkdirAll(filepath.Join(work, "smt"), 0o755)
 	os.MkdirAll(filepath.Join(work, "replay"), 0o755)
@@ -377,9 +377,10 @@ func runCheck(prog *Program, prop, tier, verif, only string, loadSecs float64, t
 		"wall_s":      round3(wall),
 		"violations":  nViol,
 	}
-	os.MkdirAll(filepath.Join(verif, "evidence"), 0o755)
+	evDir := envOr("GOVC_EVIDENCE_DIR", filepath.Join(verif, "evidence")) // (test runs on patched copies write elsewhere)
+	os.MkdirAll(evDir, 0o755)
 	b, _ := json.MarshalIndent(ev, "", " ")
-	os.WriteFile(filepath.Join(verif, "evidence", prop+".json"), b, 0o644)
+	os.WriteFile(filepath.Join(evDir, prop+".json"), b, 0o644)
 
 	fmt.Printf("govc: %s tier=%s functions=%d obligations=%d discharged=%d violations=%d known=%d undecided=%d vacuous=%d unreachable_returns=%d load=%.1fs vcgen=%.1fs solver=%.1fs wall=%.1fs\n",
 		prop, tier, len(targets), nObl, nDis, nViol, nKnown, undecided, nVacuous, nUnreach, loadSecs, genSecs, solverSecs, wall)
